@@ -52,7 +52,7 @@ BaseFeed ==
  @@ "calendar_dates.txt" :> <<CalDate(3, D(6), Num(1)), CalDate(2, D(3), Num(2)), CalDate(3, D(1), Num(2)), CalDate(2, D(4), Num(1))>>
  @@ "shapes.txt" :> <<ShapePt(3, 2, 3, 2), ShapePt(1, 10, 1, 1), ShapePt(3, 1, 5, 6), ShapePt(1, 9, 8, 9)>>
  @@ "trips.txt" :> <<Trip(1, 1, 3, Id(3)), Trip(2, 3, 2, Blank)>>
- @@ "frequencies.txt" :> <<Freq(2, T(6, 0, 0), T(9, 30, 0), 600) ++ [exact_times |-> Num(0)], Freq(2, T(9, 30, 0), T(25, 0, 0), 1200)>>
+ @@ "frequencies.txt" :> <<Freq(2, T(6, 0, 0), T(9, 30, 0), 600), Freq(2, T(9, 30, 0), T(25, 0, 0), 1200) ++ [exact_times |-> Num(0)]>>
  @@ "stop_times.txt" :> <<StopTime(1, 4, 2, T(8, 0, 0), T(8, 1, 30)), StopTime(2, 1, 10, T(23, 59, 59), T(24, 0, 0)),
                           StopTime(1, 5, 9, T(9, 5, 3), T(9, 5, 3)), StopTime(2, 5, 9, T(0, 0, 0), T(0, 0, 1)), StopTime(1, 1, 100, T(47, 59, 59), T(100, 0, 0))>>
 
@@ -109,6 +109,9 @@ Variations ==
 PoolC01(z) ==
     {MkCase(BaseFeed, FALSE, NoBase, FALSE, "C01.wellformed", 50)}
     \cup {MkCase(SetCell(BaseFeed, x[1], x[2], x[3], x[4]), FALSE, NoBase, FALSE, "C01.wellformed", 2) : x \in Variations}
+    \cup (* stop ids 8-11 are "1", "12", "11", "2": 1 -> 12 and 11 -> 2 are different pairs although their concatenations coincide *)
+    {MkCase(SetRows(SetRows(BaseFeed, "stops.txt", BaseFeed["stops.txt"] \o <<Stop(8, Blank, 0, 1), Stop(9, Blank, 0, 2), Stop(10, Blank, 0, 0), Stop(11, Blank, 0, 1)>>),
+                    "transfers.txt", <<Transfer(8, 9, 1), Transfer(10, 11, 2), Transfer(9, 8, 0), Transfer(11, 10, 3), Transfer(4, 5, 2)>>), FALSE, NoBase, FALSE, "C01.wellformed", 2)}
 
 (* ---------------- C03: hostile references ---------------- *)
 HStop(id, parent) == Stop(1, parent, 0, 0) ++ [stop_id |-> id]
@@ -155,7 +158,9 @@ PoolC08shape5(z) ==
     {MkCase(SetRows(BaseFeed, "shapes.txt", Permute(C08Shape5, p)), FALSE, <<SetRows(BaseFeed, "shapes.txt", C08Shape5)>>, FALSE, "C08.permutation", 0) : p \in Perms(5)}
     \cup (* a trip of 4 stop times in every order *)
     {MkCase(SetRows(BaseFeed, "stop_times.txt", Permute(st4, p)), FALSE, <<SetRows(BaseFeed, "stop_times.txt", st4)>>, FALSE, "C08.permutation", 0)
-        : p \in Perms(4), st4 \in {<<StopTime(1, 4, 1, T(8, 0, 0), T(8, 0, 0)), StopTime(1, 5, 2, T(8, 1, 0), T(8, 1, 0)), StopTime(1, 1, 3, T(8, 2, 0), T(8, 2, 0)), StopTime(1, 3, 4, T(8, 3, 0), T(8, 3, 0))>>}}
+        : p \in Perms(4), st4 \in {<<StopTime(1, 4, 1, T(8, 0, 0), T(8, 0, 0)), StopTime(1, 5, 2, T(8, 1, 0), T(8, 1, 0)), StopTime(1, 1, 3, T(8, 2, 0), T(8, 2, 0)), StopTime(1, 3, 4, T(8, 3, 0), T(8, 3, 0))>>,
+                                    (* the second stop has no times: that row is rejected wherever it stands *)
+                                    <<StopTime(1, 4, 1, T(8, 0, 0), T(8, 0, 0)), StopTime(1, 5, 2, Blank, Blank), StopTime(1, 1, 3, T(8, 2, 0), T(8, 2, 30)), StopTime(1, 3, 4, T(8, 3, 0), T(8, 3, 0))>>}}
 PoolC08files(z) ==
     UNION {{MkCase(SetRows(BaseFeed, f, Permute(BaseFeed[f], p)), FALSE, NoBase, FALSE, "", 0) : p \in Perms(Len(BaseFeed[f]))}
              : f \in {"agency.txt", "routes.txt", "stops.txt", "transfers.txt", "trips.txt", "frequencies.txt", "calendar_dates.txt", "calendar.txt"}}
@@ -166,16 +171,18 @@ PoolC08files(z) ==
 InsRow(rows, k, row) == SubSeq(rows, 1, k) \o <<row>> \o SubSeq(rows, k + 1, Len(rows))
 BadRows(f) ==
     CASE f = "agency.txt" -> {Agency(3, 7, 1) ++ [agency_name |-> Blank], Agency(3, 7, 5) ++ [agency_url |-> Blank], Agency(3, 7, 5) ++ [agency_timezone |-> Blank]}
-      [] f = "routes.txt" -> {Route(4, 1, 1) ++ [route_id |-> Blank], Route(4, 1, 1) ++ [route_type |-> Blank], Route(4, 3, 1), Route(4, 1, 1) ++ [agency_id |-> Blank]}
+      [] f = "routes.txt" -> {Route(4, 1, 1) ++ [route_id |-> Blank], Route(4, 1, 1) ++ [route_type |-> Blank], Route(4, 3, 1), Route(4, 1, 1) ++ [agency_id |-> Blank],
+                              Route(3, 3, 1), Route(1, 1, 1) ++ [route_type |-> Blank]}       \* rejected rows carrying the id of a valid row
       [] f = "stops.txt" -> {Stop(2, Id(3), 0, 1) ++ [stop_id |-> Blank], Stop(2, Id(1), 1, 2) ++ [stop_id |-> Blank]}
       [] f = "transfers.txt" -> {Transfer(4, 6, 1), Transfer(6, 4, 1), Transfer(4, 4, 1), Transfer(4, 5, 1) ++ [from_stop_id |-> Blank], Transfer(4, 5, 1) ++ [to_stop_id |-> Blank]}
-      [] f = "calendar.txt" -> {Calendar(4, 1, 8) ++ [start_date |-> Bad(3)], Calendar(3, 1, 8) ++ [end_date |-> Blank], Calendar(3, 1, 8) ++ [monday |-> Blank],
+      [] f = "calendar.txt" -> {Calendar(4, 1, 8) ++ [start_date |-> Bad(3)], Calendar(4, 1, 8) ++ [start_date |-> Bad(15)], Calendar(4, 1, 8) ++ [end_date |-> Bad(16)], Calendar(3, 1, 8) ++ [end_date |-> Blank], Calendar(3, 1, 8) ++ [monday |-> Blank],
                                 Calendar(3, 1, 8) ++ [service_id |-> Blank]}
-      [] f = "calendar_dates.txt" -> {CalDate(3, Bad(3), Num(1)), CalDate(4, Blank, Num(1)), CalDate(3, D(8), Num(3)), CalDate(5, D(8), Num(0)), CalDate(3, D(8), Blank),
+      [] f = "calendar_dates.txt" -> {CalDate(3, Bad(3), Num(1)), CalDate(3, Bad(15), Num(1)), CalDate(2, Bad(16), Num(2)), CalDate(4, Blank, Num(1)), CalDate(3, D(8), Num(3)), CalDate(5, D(8), Num(0)), CalDate(3, D(8), Blank),
                                       [service_id |-> Blank, date |-> D(8), exception_type |-> Num(1)]}
       [] f = "shapes.txt" -> {ShapePt(3, 5, 1, 1) ++ [shape_pt_lat |-> Bad(1)], ShapePt(3, 5, 1, 1) ++ [shape_pt_lon |-> Blank], ShapePt(2, 5, 1, 1) ++ [shape_pt_sequence |-> Bad(4)],
                               ShapePt(3, 5, 1, 1) ++ [shape_id |-> Blank], ShapePt(3, 5, 1, 1) ++ [shape_pt_sequence |-> Bad(11)]}
-      [] f = "trips.txt" -> {Trip(3, 4, 3, Blank), Trip(3, 1, 5, Blank), Trip(3, 1, 3, Blank) ++ [trip_id |-> Blank], Trip(3, 1, 3, Blank) ++ [route_id |-> Blank]}
+      [] f = "trips.txt" -> {Trip(3, 4, 3, Blank), Trip(3, 1, 5, Blank), Trip(3, 1, 3, Blank) ++ [trip_id |-> Blank], Trip(3, 1, 3, Blank) ++ [route_id |-> Blank],
+                             Trip(1, 4, 3, Id(3)), Trip(2, 1, 5, Blank), Trip(2, 3, 2, Blank) ++ [service_id |-> Blank]}   \* rejected rows carrying the id of a valid trip
       [] f = "frequencies.txt" -> {Freq(5, T(1, 0, 0), T(2, 0, 0), 60), Freq(2, Bad(2), T(2, 0, 0), 60), Freq(2, T(1, 0, 0), Blank, 60),
                                    Freq(2, T(1, 0, 0), T(2, 0, 0), 60) ++ [headway_secs |-> Bad(1)], Freq(2, T(1, 0, 0), T(2, 0, 0), 60) ++ [headway_secs |-> Bad(11)],
                                    Freq(2, Bad(12), T(2, 0, 0), 60)}
@@ -193,6 +200,10 @@ PoolC09oneAgency(z) ==
     {MkCase(SetRows(ba, "routes.txt", InsRow(ba["routes.txt"], k, b)), FALSE, <<ba>>, FALSE, "C09.inert", 0)
         : k \in 0..2, b \in {Route(4, 3, 1), Route(4, 2, 1), Route(4, 4, 1)},
           ba \in {OneAgency, SetRows(BaseFeed, "agency.txt", <<Agency(1, 1, 1), Agency(2, 2, 3) ++ [agency_name |-> Blank]>>)}}
+(* two rejected agency rows lacking different values: each warning describes its own row *)
+PoolC09agencyPairs(z) ==
+    {MkCase(SetRows(BaseFeed, "agency.txt", InsRow(InsRow(BaseFeed["agency.txt"], k, b), k2, b2)), FALSE, <<BaseFeed>>, FALSE, "C09.inert", 0)
+        : k \in {0, 1}, k2 \in {1, 3}, b \in BadRows("agency.txt"), b2 \in BadRows("agency.txt")}
 PoolC09multiline(z) ==
     {MkCase(SetRows(BaseFeed, "agency.txt", InsRow(<<Agency(1, 3, 1), Agency(2, 2, 3)>>, k, b)), FALSE, <<SetRows(BaseFeed, "agency.txt", <<Agency(1, 3, 1), Agency(2, 2, 3)>>)>>, FALSE, "C09.inert", 2)
         : k \in 0..2, b \in BadRows("agency.txt") \cup {Agency(3, 3, 1) ++ [agency_url |-> Blank]}}
@@ -208,11 +219,19 @@ Defaults == { <<"routes.txt", "route_color", Id(1)>>, <<"routes.txt", "route_tex
               <<"stop_times.txt", "drop_off_type", Num(0)>>, <<"stop_times.txt", "continuous_pickup", Num(1)>>, <<"stop_times.txt", "continuous_drop_off", Num(1)>>,
               <<"stop_times.txt", "timepoint", Num(1)>> }
 AllRows(feed, f, col, c) == [feed EXCEPT ![f] = [i \in DOMAIN feed[f] |-> [feed[f][i] EXCEPT ![col] = c]]]
+EvenRows(feed, f, col, c) == [feed EXCEPT ![f] = [i \in DOMAIN feed[f] |-> IF i % 2 = 0 THEN [feed[f][i] EXCEPT ![col] = c] ELSE feed[f][i]]]
 OddRows(feed, f, col, c) == [feed EXCEPT ![f] = [i \in DOMAIN feed[f] |-> IF i % 2 = 1 THEN [feed[f][i] EXCEPT ![col] = c] ELSE feed[f][i]]]
 PoolC10(z) ==
     UNION {{ MkCase(DropCol(BaseFeed, d[1], d[2]), i, <<AllRows(BaseFeed, d[1], d[2], d[3])>>, i, "C10.equal", 1),
              MkCase(AllRows(BaseFeed, d[1], d[2], Blank), i, <<AllRows(BaseFeed, d[1], d[2], d[3])>>, i, "C10.equal", 1),
-             MkCase(OddRows(BaseFeed, d[1], d[2], Blank), i, <<OddRows(BaseFeed, d[1], d[2], d[3])>>, i, "C10.equal", 1) } : d \in Defaults, i \in BOOLEAN}
+             MkCase(OddRows(BaseFeed, d[1], d[2], Blank), i, <<OddRows(BaseFeed, d[1], d[2], d[3])>>, i, "C10.equal", 1),
+             MkCase(EvenRows(BaseFeed, d[1], d[2], Blank), i, <<EvenRows(BaseFeed, d[1], d[2], d[3])>>, i, "C10.equal", 1) } : d \in Defaults, i \in BOOLEAN}
+    \cup (* C10m: blank and filled cells of neighbouring default-bearing columns whose texts concatenate alike: ("1", "") and ("", "1") *)
+    {LET a == x[1] da == x[2] b == x[3] db == x[4] IN
+     MkCase(SetCell(SetCell(SetCell(SetCell(BaseFeed, "stop_times.txt", 1, a, Num(1)), "stop_times.txt", 1, b, Blank), "stop_times.txt", 2, a, Blank), "stop_times.txt", 2, b, Num(1)), FALSE,
+            <<SetCell(SetCell(SetCell(SetCell(BaseFeed, "stop_times.txt", 1, a, Num(1)), "stop_times.txt", 1, b, db), "stop_times.txt", 2, a, da), "stop_times.txt", 2, b, Num(1))>>, FALSE, "C10.equal", 1)
+        : x \in {<<"pickup_type", Num(0), "drop_off_type", Num(0)>>, <<"drop_off_type", Num(0), "continuous_pickup", Num(1)>>,
+                  <<"continuous_pickup", Num(1), "continuous_drop_off", Num(1)>>, <<"continuous_drop_off", Num(1), "timepoint", Num(1)>>}}
     \cup (* one-sided arrival / departure: the other takes the same value *)
     {MkCase(SetCell(SetCell(BaseFeed, "stop_times.txt", 1, a, Blank), "stop_times.txt", 3, b, Blank), FALSE,
             <<SetCell(SetCell(BaseFeed, "stop_times.txt", 1, a, BaseFeed["stop_times.txt"][1][IF a = "arrival_time" THEN "departure_time" ELSE "arrival_time"]),
@@ -229,11 +248,11 @@ PoolC10(z) ==
 CalRows == {Calendar(3, 2, 5), Calendar(1, 3, 4), Calendar(3, 1, 8) ++ [monday |-> Num(0), sunday |-> Num(1)], Calendar(2, 4, 4) ++ [start_date |-> Bad(3)],
             Calendar(3, 7, 2), Calendar(2, 1, 8) ++ [wednesday |-> Blank], Calendar(3, 1, 8) ++ [sunday |-> Blank], Calendar(2, 3, 6) ++ [end_date |-> Blank],
             Calendar(2, 1, 8) ++ [monday |-> Bad(13), tuesday |-> Bad(14), wednesday |-> Num(0), friday |-> Num(2)]}   \* only the digit 1 sets a weekday
-ExcRows == {CalDate(s, D(d), Num(typ)) : s \in {3, 2}, d \in {1, 3, 5, 7}, typ \in {1, 2}} \cup {CalDate(3, D(8), Num(3)), CalDate(4, D(6), Num(0)), CalDate(2, Bad(3), Num(1))}
+ExcRows == {CalDate(s, D(d), Num(typ)) : s \in {3, 2}, d \in {1, 3, 5, 7}, typ \in {1, 2}} \cup {CalDate(3, D(8), Num(3)), CalDate(4, D(6), Num(0)), CalDate(2, Bad(3), Num(1)), CalDate(2, Bad(15), Num(1))}
 TzAgencies == {<<Agency(1, 1, 1), Agency(2, 2, 3)>>, <<Agency(2, 2, 3), Agency(1, 1, 1)>>, <<Agency(1, 1, 4), Agency(2, 2, 5)>>, <<Agency(1, 1, 5)>>,
                <<Agency(3, 7, 1) ++ [agency_url |-> Blank], Agency(2, 2, 3)>>}
 ExcRowsQuick == {CalDate(3, D(1), Num(1)), CalDate(3, D(5), Num(2)), CalDate(3, D(7), Num(1)), CalDate(2, D(3), Num(1)), CalDate(2, D(7), Num(2)),
-                 CalDate(3, D(8), Num(3)), CalDate(4, D(6), Num(0)), CalDate(2, Bad(3), Num(1)), CalDate(3, D(3), Num(2))}
+                 CalDate(3, D(8), Num(3)), CalDate(4, D(6), Num(0)), CalDate(2, Bad(3), Num(1)), CalDate(3, D(3), Num(2)), CalDate(3, Bad(15), Num(1))}
 C11Case(cq, eq) == MkCase(SetRows(SetRows(SetRows(SetRows(BaseFeed, "calendar.txt", cq), "calendar_dates.txt", eq), "agency.txt", <<Agency(2, 2, 3)>>),
                                   "routes.txt", <<Route(1, 2, 1)>>), FALSE, NoBase, FALSE, "", 0)
 (* z = 1 (quick): <= 1 calendar row x <= 2 exception rows from the small pool, and 2 calendar rows x <= 1 exception row; z = 0: the full product *)
@@ -247,8 +266,8 @@ PoolC11b(z) ==
         : eq \in SeqsOf({CalDate(3, D(d), Num(typ)) : d \in {1, 4, 8}, typ \in {1, 2, 3}} \cup {CalDate(2, D(2), Num(1))}, 3, 3)}
 
 (* ---------------- C05: the wrong value in the wrong place ---------------- *)
-Garbage == {Blank, Bad(1), Bad(2), Bad(3), Bad(4), Bad(5), Bad(6), Bad(7), Bad(8), Bad(9), Bad(10), Num(0 - 1), Num(2147483647), T(0, 99, 99), D(8)}
-GarbageQuick == {Blank, Bad(1), Bad(5), Bad(7), Bad(10), Num(0 - 1)}
+Garbage == {Num(0), Blank, Bad(1), Bad(2), Bad(3), Bad(4), Bad(5), Bad(6), Bad(7), Bad(8), Bad(9), Bad(10), Num(0 - 1), Num(2147483647), T(0, 99, 99), D(8)}
+GarbageQuick == {Num(0), Blank, Bad(1), Bad(5), Bad(7), Bad(10), Num(0 - 1)}
 PoolC05(G) ==
     UNION {UNION {{MkCase(SetCell(BaseFeed, f, n, c, g), TRUE, NoBase, FALSE, "", 0) : g \in G, c \in DOMAIN BaseFeed[f][n]}
                     : n \in {1, Len(BaseFeed[f])}} : f \in Range(Files)}
@@ -283,7 +302,7 @@ PoolStructure(z) ==
           WithEmpty(MkCase(BaseFeed, FALSE, NoBase, FALSE, "", 0), <<"transfers.txt", "shapes.txt">>)}
 
 Cases == CASE Pool = "C01" -> PoolC01(0) [] Pool = "C03stops" -> PoolC03stops(0) [] Pool = "C03refs" -> PoolC03refs(0) [] Pool = "C08" -> PoolC08(0) [] Pool = "C08files" -> PoolC08files(0) [] Pool = "C08shape5" -> PoolC08shape5(0)
-           [] Pool = "C09" -> PoolC09(0) \cup PoolC09multiline(0) \cup PoolC09oneAgency(0) [] Pool = "C09pairs" -> PoolC09pairs(0) [] Pool = "C10" -> PoolC10(0) [] Pool = "C11" -> PoolC11(0) [] Pool = "C11q" -> PoolC11(1) [] Pool = "C11b" -> PoolC11b(0) [] Pool = "C05cyc" -> PoolC05cyc(0) [] Pool = "structure" -> PoolStructure(0) [] Pool = "C05" -> PoolC05(Garbage) [] Pool = "C05q" -> PoolC05(GarbageQuick)
+           [] Pool = "C09" -> PoolC09(0) \cup PoolC09multiline(0) \cup PoolC09oneAgency(0) \cup PoolC09agencyPairs(0) [] Pool = "C09pairs" -> PoolC09pairs(0) [] Pool = "C10" -> PoolC10(0) [] Pool = "C11" -> PoolC11(0) [] Pool = "C11q" -> PoolC11(1) [] Pool = "C11b" -> PoolC11b(0) [] Pool = "C05cyc" -> PoolC05cyc(0) [] Pool = "structure" -> PoolStructure(0) [] Pool = "C05" -> PoolC05(Garbage) [] Pool = "C05q" -> PoolC05(GarbageQuick)
 
 (* ---------------- the machine ---------------- *)
 Init == /\ case \in Cases /\ fi = 1 /\ ri = 1 /\ st = EmptySt /\ pc = "rows"
